@@ -601,6 +601,9 @@ class JSONPathEnvironment:
         if isinstance(left, str) and isinstance(right, str):
             return left < right
 
+        if isinstance(left, bool) or isinstance(right, bool):
+            return False
+
         if isinstance(left, (int, float, Decimal)) and isinstance(
             right, (int, float, Decimal)
         ):
